@@ -296,13 +296,92 @@ func emitSites(p *Program, a *anchors, fn *ssa.Function) []emitSite {
 	return out
 }
 
-// patchCalls returns the changeOperand calls of fn.
-func patchCalls(a *anchors, fn *ssa.Function) []*ssa.Call {
-	var out []*ssa.Call
+// patchSite: one back-patch — a call of the patcher itself, or of a function
+// that does nothing to the program but call the patcher with the position it
+// was given (and the target it was given, or the current end of the program).
+type patchSite struct {
+	*ssa.Call
+	pos    ssa.Value // the position of the operand that is overwritten
+	target ssa.Value // the value written; nil when it is "here"
+	here   bool      // the target is the length of the program at the call
+	posArg int       // index of the position among the call's written arguments
+}
+
+// patchWrapper: fn only forwards to the patcher; which of its parameters is
+// the position and which (if any) the target.
+func patchWrapper(a *anchors, fn *ssa.Function) (posIdx, targetIdx int, ok bool) {
+	if fn == nil || fn == a.changeOperand || len(fn.Blocks) == 0 {
+		return 0, 0, false
+	}
+	field := instructionsField(a)
+	n := 0
+	posIdx, targetIdx = -1, -1
 	for _, b := range fn.Blocks {
 		for _, ins := range b.Instrs {
-			if c, ok := staticCalleeIs(ins, a.changeOperand); ok {
-				out = append(out, c)
+			switch x := ins.(type) {
+			case *ssa.Call:
+				if x.Call.StaticCallee() == a.changeOperand && len(x.Call.Args) >= 3 {
+					n++
+					for i, prm := range fn.Params {
+						if x.Call.Args[1] == ssa.Value(prm) {
+							posIdx = i
+						}
+						if x.Call.Args[2] == ssa.Value(prm) {
+							targetIdx = i
+						}
+					}
+					if targetIdx < 0 {
+						if _, isLen := isLenOfField(x.Call.Args[2], field); !isLen {
+							return 0, 0, false
+						}
+					}
+				} else if _, isB := x.Call.Value.(*ssa.Builtin); !isB {
+					return 0, 0, false // does something else as well
+				}
+			case *ssa.Store, *ssa.MapUpdate, *ssa.Defer, *ssa.Go:
+				return 0, 0, false
+			}
+		}
+	}
+	return posIdx, targetIdx, n == 1 && posIdx >= 0
+}
+
+// patchCalls returns the back-patches of fn.
+func patchCalls(a *anchors, fn *ssa.Function) []patchSite {
+	var out []patchSite
+	field := instructionsField(a)
+	for _, b := range fn.Blocks {
+		for _, ins := range b.Instrs {
+			c, ok := ins.(*ssa.Call)
+			if !ok {
+				continue
+			}
+			cal := c.Call.StaticCallee()
+			if cal == nil {
+				continue
+			}
+			if cal == a.changeOperand && len(c.Call.Args) >= 3 {
+				ps := patchSite{Call: c, pos: c.Call.Args[1], target: c.Call.Args[2], posArg: 0}
+				if _, isLen := isLenOfField(c.Call.Args[2], field); isLen {
+					ps.here = true
+				}
+				out = append(out, ps)
+				continue
+			}
+			if pi, ti, ok := patchWrapper(a, cal); ok && pi < len(c.Call.Args) {
+				ps := patchSite{Call: c, pos: c.Call.Args[pi], posArg: pi}
+				if cal.Signature.Recv() != nil {
+					ps.posArg = pi - 1
+				}
+				if ti >= 0 && ti < len(c.Call.Args) {
+					ps.target = c.Call.Args[ti]
+					if _, isLen := isLenOfField(ps.target, field); isLen {
+						ps.here = true
+					}
+				} else {
+					ps.here = true
+				}
+				out = append(out, ps)
 			}
 		}
 	}
@@ -314,16 +393,18 @@ func patchCalls(a *anchors, fn *ssa.Function) []*ssa.Call {
 func patchedOpcodes(p *Program, a *anchors) (map[string]bool, []string) {
 	ops := map[string]bool{}
 	var undec []string
-	byCall := map[ssa.Value]emitSite{}
-	for _, e := range emitSites(p, a, a.compile) {
-		byCall[e.call] = e
-	}
-	for _, pc := range patchCalls(a, a.compile) {
-		for _, o := range origins(pc.Call.Args[1]) {
-			if e, ok := byCall[o]; ok && e.op != "" {
-				ops[e.op] = true
-			} else {
-				undec = append(undec, p.Pos(pc.Pos()))
+	for _, fn := range compilerFamily(p, a) {
+		byCall := map[ssa.Value]emitSite{}
+		for _, e := range emitSites(p, a, fn) {
+			byCall[e.call] = e
+		}
+		for _, pc := range patchCalls(a, fn) {
+			for _, o := range origins(pc.pos) {
+				if e, ok := byCall[o]; ok && e.op != "" {
+					ops[e.op] = true
+				} else {
+					undec = append(undec, p.Pos(pc.Pos()))
+				}
 			}
 		}
 	}
@@ -340,7 +421,12 @@ func rulePatchAll(p *Program, r *Reporter) {
 		r.Undecided("VM jump set", "-", "cannot determine the jump opcodes")
 		return
 	}
-	fn := a.compile
+	for _, fn := range compilerFamily(p, a) {
+		patchAllIn(p, r, a, fn, J)
+	}
+}
+
+func patchAllIn(p *Program, r *Reporter, a *anchors, fn *ssa.Function, J map[string]bool) {
 	patches := patchCalls(a, fn)
 	// for each patch: which emit calls may be its position, and whether that
 	// came through a slice (loop idiom)
@@ -351,11 +437,11 @@ func rulePatchAll(p *Program, r *Reporter) {
 	patchOf := map[ssa.Value][]patchInfo{}
 	for _, pc := range patches {
 		direct := false
-		for _, o := range origins(pc.Call.Args[1]) {
-			if o == pc.Call.Args[1] {
+		for _, o := range origins(pc.pos) {
+			if o == pc.pos {
 				direct = true
 			}
-			pi := patchInfo{call: pc, barrier: pc.Block()}
+			pi := patchInfo{call: pc.Call, barrier: pc.Block()}
 			if !direct {
 				// loop idiom: the patch happens once the loop is entered; use the
 				// nearest dominating loop header as the barrier.
@@ -476,12 +562,18 @@ func ruleJoinPH(p *Program, r *Reporter) {
 	if a == nil {
 		return
 	}
-	fn := a.compile
 	field := instructionsField(a)
 	if field == "" {
 		r.Undecided("instructions field", p.Pos(a.emit.Pos()), "cannot find the field the emitter appends to")
 		return
 	}
+	for _, fn := range compilerFamily(p, a) {
+		joinPHIn(p, r, a, fn, field)
+	}
+	foldWindowRule(p, r)
+}
+
+func joinPHIn(p *Program, r *Reporter, a *anchors, fn *ssa.Function, field string) {
 	emits := map[ssa.Instruction]emitSite{}
 	for _, e := range emitSites(p, a, fn) {
 		emits[e.call] = e
@@ -492,20 +584,31 @@ func ruleJoinPH(p *Program, r *Reporter) {
 	}
 	patches := patchCalls(a, fn)
 	for _, pc := range patches {
-		lenCall, ok := isLenOfField(pc.Call.Args[2], field)
-		if !ok {
+		// the point at which the label is taken: where the length of the
+		// program is read — at the call itself when a helper reads it
+		var lenCall ssa.Instruction = pc.Call
+		if !pc.here {
 			// operand is not "here": a backward target or a saved label
-			if _, isC := pc.Call.Args[2].(*ssa.Const); isC {
+			if _, isC := pc.target.(*ssa.Const); isC {
 				r.Undecided(siteKey(p, fn, pc.Pos(), "patch with constant"), p.Pos(pc.Pos()), "back-patch with a constant target")
 			}
 			continue
 		}
+		if pc.target != nil {
+			if lc, ok := isLenOfField(pc.target, field); ok {
+				lenCall = lc
+			}
+		}
 		key := siteKey(p, fn, pc.Pos(), "label patched into "+posVarName(p, fn, pc))
 		// final on a path? a later patch of the same position value
-		posVal := pc.Call.Args[1]
+		posVal := pc.pos
 		laterSame := func(ins ssa.Instruction) bool {
-			c, ok := staticCalleeIs(ins, a.changeOperand)
-			return ok && c != pc && c.Call.Args[1] == posVal
+			for _, other := range patches {
+				if ssa.Instruction(other.Call) == ins && other.Call != pc.Call && other.pos == posVal {
+					return true
+				}
+			}
+			return false
 		}
 		// Explore every path from the label point to an exit of the compiler.
 		// A path on which the same position is patched again later is dropped:
@@ -604,13 +707,12 @@ func ruleJoinPH(p *Program, r *Reporter) {
 			r.Fail(key+" (b)", p.Pos(pc.Pos()), fmt.Sprintf("the label is neither directly after an unconditional jump (before=%s) nor at a placeholder instruction (after=%s): the constant folder can merge a push before the label with pushes/operators after it, changing the value computed on the path that jumps here", setStr(prev), setStr(first)))
 		}
 	}
-	foldWindowRule(p, r)
 }
 
 // posVarName names the position variable of a patch from the syntax.
-func posVarName(p *Program, fn *ssa.Function, pc *ssa.Call) string {
-	if ce := callExprAt(fn.Syntax(), pc.Pos()); ce != nil && len(ce.Args) == 2 {
-		return types.ExprString(ce.Args[0])
+func posVarName(p *Program, fn *ssa.Function, pc patchSite) string {
+	if ce := callExprAt(fn.Syntax(), pc.Pos()); ce != nil && pc.posArg >= 0 && pc.posArg < len(ce.Args) {
+		return types.ExprString(ce.Args[pc.posArg])
 	}
 	return "?"
 }
@@ -718,6 +820,67 @@ func foldWindowRule(p *Program, r *Reporter) {
 		r.Undecided("folding pass", "-", "cannot find the constant-folding callback (switch over the opcode with an OpPush case appending to a window)")
 	}
 	if !foundJump {
+		// not written as a switch over the opcode: look for the callback that
+		// keeps the previous opcode in a captured variable, and check on the
+		// flow graph that it is recorded on every path that lets the walk go on
+		for _, fn := range p.LibFns {
+			if fn.Parent() == nil || !isWalkerCallback(fn) || fnPkg(fn).Pkg.Path() != Mod+"/vm" || len(fn.Params) < 2 {
+				continue
+			}
+			opPrm := fn.Params[1]
+			var prev *ssa.FreeVar
+			storeBlocks := map[*ssa.BasicBlock]bool{}
+			for _, b := range fn.Blocks {
+				for _, ins := range b.Instrs {
+					if st, ok := ins.(*ssa.Store); ok && st.Val == ssa.Value(opPrm) {
+						if fv, ok := st.Addr.(*ssa.FreeVar); ok {
+							prev = fv
+							storeBlocks[b] = true
+						}
+					}
+				}
+			}
+			if prev == nil {
+				continue
+			}
+			foundJump = true
+			updated := true
+			for _, b := range fn.Blocks {
+				ret, ok := terminator(b).(*ssa.Return)
+				if !ok || len(ret.Results) == 0 {
+					continue
+				}
+				if c, ok := ret.Results[0].(*ssa.Const); !ok || c.Value == nil || c.Value.Kind() != constant.Bool || !constant.BoolVal(c.Value) {
+					continue // the walk stops here: nothing follows
+				}
+				seen := map[*ssa.BasicBlock]bool{}
+				var back func(x *ssa.BasicBlock) bool
+				back = func(x *ssa.BasicBlock) bool {
+					if storeBlocks[x] {
+						return true
+					}
+					if len(x.Preds) == 0 {
+						return false
+					}
+					for _, pd := range x.Preds {
+						if seen[pd] {
+							continue
+						}
+						seen[pd] = true
+						if !back(pd) {
+							return false
+						}
+					}
+					return true
+				}
+				if !back(b) {
+					updated = false
+				}
+			}
+			r.Check(updated, "jump pass tracks the previous opcode for every instruction", p.Pos(fn.Pos()), "recorded on every path on which the walk continues", "the jump-simplification pass must record the opcode it has just seen on every path on which the walk goes on; otherwise a stale `true` or `false` from further back is taken for the condition of a later conditional jump")
+		}
+	}
+	if !foundJump {
 		r.Undecided("jump pass", "-", "cannot find the jump-simplification callback")
 	}
 }
@@ -730,8 +893,13 @@ func ruleLoopHead(p *Program, r *Reporter) {
 	if a == nil {
 		return
 	}
-	fn := a.compile
 	field := instructionsField(a)
+	for _, fn := range compilerFamily(p, a) {
+		loopHeadIn(p, r, a, fn, field)
+	}
+}
+
+func loopHeadIn(p *Program, r *Reporter, a *anchors, fn *ssa.Function, field string) {
 	emits := emitSites(p, a, fn)
 	byCall := map[ssa.Instruction]emitSite{}
 	for _, e := range emits {
@@ -951,6 +1119,35 @@ func ruleNarrow(p *Program, r *Reporter) {
 				if guardedByUpperBound(src, call) {
 					r.OkNT(key, p.Pos(call.Pos()), "dominated by an upper-bound test on the value")
 					continue
+				}
+				// (3) the value is a parameter, and every caller hands in a value it
+				// has tested against an upper bound
+				if prm, isParam := src.(*ssa.Parameter); isParam {
+					idx := -1
+					for i, q := range fn.Params {
+						if q == prm {
+							idx = i
+						}
+					}
+					sites, all := 0, true
+					for _, g := range p.LibFns {
+						for _, gb := range g.Blocks {
+							for _, gi := range gb.Instrs {
+								c, ok := staticCalleeIs(gi, fn)
+								if !ok || idx < 0 || idx >= len(c.Call.Args) {
+									continue
+								}
+								sites++
+								if !guardedByUpperBound(c.Call.Args[idx], c) {
+									all = false
+								}
+							}
+						}
+					}
+					if sites > 0 && all {
+						r.OkNT(key, p.Pos(call.Pos()), fmt.Sprintf("the value is handed in by %d caller(s), each under an upper-bound test on it", sites))
+						continue
+					}
 				}
 				if _, isExt := src.(*ssa.Extract); isExt || isMapLookup(src) {
 					k2 := p.FnName(fn) + "/new jump target"
@@ -1178,20 +1375,20 @@ func rulePrepareFresh(p *Program, r *Reporter) {
 	for _, f := range names {
 		key := "Prepare resets Eval." + f + " before compiling"
 		reset := false
+		fld0 := f
+		isReset := func(ins ssa.Instruction) bool {
+			st, ok := ins.(*ssa.Store)
+			if !ok {
+				return false
+			}
+			n, fld, ok := fieldOf(st.Addr)
+			return ok && n != nil && n.Obj().Name() == "Eval" && fld == fld0 && isFreshEmpty(st.Val)
+		}
 		for _, b := range a.prepare.Blocks {
 			for _, ins := range b.Instrs {
-				st, ok := ins.(*ssa.Store)
-				if !ok {
-					continue
-				}
-				n, fld, ok := fieldOf(st.Addr)
-				if !ok || n == nil || n.Obj().Name() != "Eval" || fld != f {
-					continue
-				}
-				if !isFreshEmpty(st.Val) {
-					continue
-				}
-				if dominatesInstr(st, compileCall) {
+				// the store itself, or a call of a function that makes it on
+				// every one of its paths
+				if performs(ins, isReset, 2) && dominatesInstr(ins, compileCall) {
 					reset = true
 				}
 			}
@@ -1208,26 +1405,49 @@ func rulePrepareFresh(p *Program, r *Reporter) {
 // with the new (empty) constants.
 func prepareCoherent(p *Program, r *Reporter, a *anchors, outputs map[string]token.Pos) {
 	key := "a failed Prepare leaves no machine of the previous program behind"
-	var resets, clears []*ssa.Store
+	var resets, clears []ssa.Instruction
 	machineField := ""
+	isOutputReset := func(ins ssa.Instruction) bool {
+		st, ok := ins.(*ssa.Store)
+		if !ok {
+			return false
+		}
+		n, fld, ok := fieldOf(st.Addr)
+		if !ok || n == nil || n.Obj().Name() != "Eval" {
+			return false
+		}
+		_, isOut := outputs[fld]
+		return isOut && isFreshEmpty(st.Val)
+	}
+	storesMachine := func(ins ssa.Instruction) bool {
+		st, ok := ins.(*ssa.Store)
+		if !ok {
+			return false
+		}
+		n, fld, ok := fieldOf(st.Addr)
+		if !ok || n == nil || n.Obj().Name() != "Eval" {
+			return false
+		}
+		if pt, ok := st.Val.Type().(*types.Pointer); ok && isNamed(pt.Elem(), "vm", "VM") {
+			machineField = fld
+			return true
+		}
+		return false
+	}
+	clearsMachine := func(ins ssa.Instruction) bool {
+		st, ok := ins.(*ssa.Store)
+		return ok && storesMachine(ins) && isNilConst(st.Val)
+	}
+	mayPerform(a.prepare, storesMachine, 2)
 	for _, b := range a.prepare.Blocks {
 		for _, ins := range b.Instrs {
-			st, ok := ins.(*ssa.Store)
-			if !ok {
-				continue
+			// the stores themselves, or calls of functions that make them on
+			// every one of their paths
+			if performs(ins, isOutputReset, 2) {
+				resets = append(resets, ins)
 			}
-			n, fld, ok := fieldOf(st.Addr)
-			if !ok || n == nil || n.Obj().Name() != "Eval" {
-				continue
-			}
-			if _, isOut := outputs[fld]; isOut && isFreshEmpty(st.Val) {
-				resets = append(resets, st)
-			}
-			if pt, ok := st.Val.Type().(*types.Pointer); ok && isNamed(pt.Elem(), "vm", "VM") {
-				machineField = fld
-				if isNilConst(st.Val) {
-					clears = append(clears, st)
-				}
+			if performs(ins, clearsMachine, 2) {
+				clears = append(clears, ins)
 			}
 		}
 	}
